@@ -33,6 +33,7 @@ type Program struct {
 	decls  map[string]*ast.FuncDecl
 	Blocks int
 	Instrs int
+	ConstBranches int // branches on a constant condition whose dead side was pruned
 	cgCache *CG
 }
 
@@ -144,6 +145,9 @@ func loadProgram(goos, goarch string) (*Program, error) {
 		if _, ok := p.Funcs["init"]; !ok {
 			addFn("init", init)
 		}
+	}
+	for _, f := range p.AllFns {
+		p.ConstBranches += pruneConstBranches(f)
 	}
 	sort.Slice(p.AllFns, func(i, j int) bool { return p.AllFns[i].Pos() < p.AllFns[j].Pos() })
 	if len(p.AllFns) < 300 {
